@@ -43,10 +43,12 @@ def Vec.toArray {n} (v : Vec K n) : Array K := Array.ofFn v
 def Mat.toArray {k d} (M : Mat K k d) : Array K :=
   (Array.ofFn fun i : Fin k => Array.ofFn fun j : Fin d => M i j).flatten
 
-/-- materialise (evaluate once) -/
-def Vec.memo {n} (v : Vec K n) : Vec K n := let a := Vector.ofFn v; fun i => a[i]
-def Mat.memo {k d} (M : Mat K k d) : Mat K k d :=
-  let a := Vector.ofFn fun i => Vector.ofFn fun j => M i j
-  fun i j => a[i][j]
+/-- materialise a vector / matrix as data (evaluated once); `ofStore` reads it back.  A closure-returning
+"memo" would be recompiled at full arity and recompute on every access, so loop-carried values and
+anything reused are stored explicitly. -/
+def Vec.store {n} (v : Vec K n) : Vector K n := Vector.ofFn v
+def Vec.ofStore {n} (a : Vector K n) : Vec K n := fun i => a[i]
+def Mat.store {k d} (M : Mat K k d) : Vector (Vector K d) k := Vector.ofFn fun i => Vector.ofFn fun j => M i j
+def Mat.ofStore {k d} (a : Vector (Vector K d) k) : Mat K k d := fun i j => a[i][j]
 
 end ML
